@@ -103,6 +103,8 @@ class Path(object):
         self.labels_reached = set()
         self.soft = []           # deviations recorded without ending the path
         self.dump = None         # (directory, remaining) for second-opinion SMT-LIB2 dumps
+        self.random = None       # random.Random: probe mode (Knuth's tree-size estimator), no alternatives queued
+        self.weight = 1.0
 
     # -- solver plumbing ------------------------------------------------------
     def _check(self, *extra):
@@ -200,7 +202,11 @@ class Path(object):
         take = mv
         if prefer is not None and prefer != mv:
             take = prefer
-        self.pending.append(list(self.trace) + [("d", int(not take))])
+        if self.random is not None:
+            take = self.random.random() < 0.5
+            self.weight *= 2.0
+        else:
+            self.pending.append(list(self.trace) + [("d", int(not take))])
         self.trace.append(("d", int(take)))
         self._add(expr if take else z3.Not(expr))
         if take != mv:
@@ -221,6 +227,11 @@ class Path(object):
                 raise EngineError("non-deterministic replay: expected %r at %d, got a choice" % (kind, idx))
             self.trace.append(("c", val))
             return val
+        if self.random is not None:
+            k = self.random.randrange(n)
+            self.weight *= n
+            self.trace.append(("c", k))
+            return k
         for k in range(n - 1, 0, -1):
             self.pending.append(list(self.trace) + [("c", k)])
         self.trace.append(("c", 0))
@@ -1053,7 +1064,7 @@ Path.assume_no_overflow = _assume_no_overflow
 
 class PathResult(object):
     __slots__ = ("status", "label", "detail", "trace", "pending", "inputs", "observations",
-                 "model_inputs", "inconclusive", "realised", "error", "labels", "depth")
+                 "model_inputs", "inconclusive", "realised", "error", "labels", "depth", "weight")
 
 
 def concretise(value, model):
@@ -1093,11 +1104,12 @@ def concretise(value, model):
     return value
 
 
-def run_path(fn, prefix, stats, want_model=False, seed=0, timeout_ms=20000, dump=None):
+def run_path(fn, prefix, stats, want_model=False, seed=0, timeout_ms=20000, dump=None, probe=None):
     """Execute harness `fn(path)` once under `prefix`."""
     global CUR
     p = Path(prefix, stats, seed=seed, timeout_ms=timeout_ms)
     p.dump = dump
+    p.random = probe
     res = PathResult()
     res.label = None
     res.detail = None
@@ -1145,4 +1157,5 @@ def run_path(fn, prefix, stats, want_model=False, seed=0, timeout_ms=20000, dump
     res.realised = p.realised
     res.labels = p.labels_reached
     res.depth = len(p.trace)
+    res.weight = p.weight
     return res
